@@ -337,65 +337,72 @@ impl OptSpec {
     /// Returns the parameter trajectory and whether the run stayed well-conditioned (the centred
     /// variance `v - g_avg^2` is a difference of nearly equal numbers for near-constant gradients).
     pub fn reference(&self, w0: f64, steps: &[(i32, f64)]) -> (Vec<f64>, bool) {
-        let dflt = |x: f32, d: f64| if x == 0.0 { d } else { x as f64 };
         let mut w = w0;
         let mut out = Vec::new();
         let mut well = true;
-        let (mut s1, mut s2, mut s3) = (0.0f64, 0.0f64, 0.0f64);
+        let mut st = [0.0f64; 3];
         for (t, g0) in steps {
-            let mut g = *g0;
-            match self {
-                OptSpec::Sgd(lr, d) => {
-                    let lr = dflt(*lr, 0.1f32 as f64);
-                    if let Some(d) = d { g += *d as f64 * w; }
-                    w -= lr * g;
-                }
-                OptSpec::Sgdm(lr, m, da, d) => {
-                    let (lr, m) = (dflt(*lr, 0.1f32 as f64), dflt(*m, 0.9f32 as f64));
-                    if let Some(d) = d { g += *d as f64 * w; }
-                    if *t > 1 { s1 = m * s1 + (1.0 - *da as f64) * g; } else { s1 = g; }
-                    w -= lr * s1;
-                }
-                OptSpec::Adam(lr, b1, b2, e, d) => {
-                    let (lr, b1, b2, e) = (dflt(*lr, 0.001f32 as f64), dflt(*b1, 0.9f32 as f64), dflt(*b2, 0.999f32 as f64), dflt(*e, 1e-8f32 as f64));
-                    if let Some(d) = d { g += *d as f64 * w; }
-                    s1 = b1 * s1 + (1.0 - b1) * g;
-                    s2 = b2 * s2 + (1.0 - b2) * g * g;
-                    let mh = s1 / (1.0 - b1.powi(*t));
-                    let vh = s2 / (1.0 - b2.powi(*t));
-                    w -= lr * mh / (vh.sqrt() + e);
-                }
-                OptSpec::AdamW(lr, b1, b2, e, d) => {
-                    let (lr, b1, b2, e) = (dflt(*lr, 0.001f32 as f64), dflt(*b1, 0.9f32 as f64), dflt(*b2, 0.999f32 as f64), dflt(*e, 1e-8f32 as f64));
-                    w -= lr * *d as f64 * w;
-                    s1 = b1 * s1 + (1.0 - b1) * g;
-                    s2 = b2 * s2 + (1.0 - b2) * g * g;
-                    let mh = s1 / (1.0 - b1.powi(*t));
-                    let vh = s2 / (1.0 - b2.powi(*t));
-                    w -= lr * mh / (vh.sqrt() + e);
-                }
-                OptSpec::Rmsprop(lr, a, e, d, m, c) => {
-                    let (lr, a, e) = (dflt(*lr, 0.01f32 as f64), dflt(*a, 0.99f32 as f64), dflt(*e, 1e-8f32 as f64));
-                    if let Some(d) = d { g += *d as f64 * w; }
-                    s1 = a * s1 + (1.0 - a) * g * g;
-                    let mut v = s1;
-                    if *c {
-                        s2 = a * s2 + (1.0 - a) * g;
-                        v -= s2 * s2;
-                        if v < 1e-3 * s1 { well = false; }
-                        if v < 0.0 { v = 0.0; }
-                    }
-                    if let Some(mu) = m {
-                        s3 = *mu as f64 * s3 + g / (v.sqrt() + e);
-                        w -= lr * s3;
-                    } else {
-                        w -= lr * g / (v.sqrt() + e);
-                    }
-                }
-            }
+            well &= self.step_f64(&mut w, &mut st, *t, *g0);
             out.push(w);
         }
         (out, well)
+    }
+    /// one step of the documented rule for one scalar parameter `w` with its own state `st`, in double
+    /// precision; returns whether the step stayed well-conditioned
+    pub fn step_f64(&self, w: &mut f64, st: &mut [f64; 3], t: i32, g0: f64) -> bool {
+        let dflt = |x: f32, d: f64| if x == 0.0 { d } else { x as f64 };
+        let mut well = true;
+        let mut g = g0;
+        match self {
+            OptSpec::Sgd(lr, d) => {
+                let lr = dflt(*lr, 0.1f32 as f64);
+                if let Some(d) = d { g += *d as f64 * *w; }
+                *w -= lr * g;
+            }
+            OptSpec::Sgdm(lr, m, da, d) => {
+                let (lr, m) = (dflt(*lr, 0.1f32 as f64), dflt(*m, 0.9f32 as f64));
+                if let Some(d) = d { g += *d as f64 * *w; }
+                if t > 1 { st[0] = m * st[0] + (1.0 - *da as f64) * g; } else { st[0] = g; }
+                *w -= lr * st[0];
+            }
+            OptSpec::Adam(lr, b1, b2, e, d) => {
+                let (lr, b1, b2, e) = (dflt(*lr, 0.001f32 as f64), dflt(*b1, 0.9f32 as f64), dflt(*b2, 0.999f32 as f64), dflt(*e, 1e-8f32 as f64));
+                if let Some(d) = d { g += *d as f64 * *w; }
+                st[0] = b1 * st[0] + (1.0 - b1) * g;
+                st[1] = b2 * st[1] + (1.0 - b2) * g * g;
+                let mh = st[0] / (1.0 - b1.powi(t));
+                let vh = st[1] / (1.0 - b2.powi(t));
+                *w -= lr * mh / (vh.sqrt() + e);
+            }
+            OptSpec::AdamW(lr, b1, b2, e, d) => {
+                let (lr, b1, b2, e) = (dflt(*lr, 0.001f32 as f64), dflt(*b1, 0.9f32 as f64), dflt(*b2, 0.999f32 as f64), dflt(*e, 1e-8f32 as f64));
+                *w -= lr * *d as f64 * *w;
+                st[0] = b1 * st[0] + (1.0 - b1) * g;
+                st[1] = b2 * st[1] + (1.0 - b2) * g * g;
+                let mh = st[0] / (1.0 - b1.powi(t));
+                let vh = st[1] / (1.0 - b2.powi(t));
+                *w -= lr * mh / (vh.sqrt() + e);
+            }
+            OptSpec::Rmsprop(lr, a, e, d, m, c) => {
+                let (lr, a, e) = (dflt(*lr, 0.01f32 as f64), dflt(*a, 0.99f32 as f64), dflt(*e, 1e-8f32 as f64));
+                if let Some(d) = d { g += *d as f64 * *w; }
+                st[0] = a * st[0] + (1.0 - a) * g * g;
+                let mut v = st[0];
+                if *c {
+                    st[1] = a * st[1] + (1.0 - a) * g;
+                    v -= st[1] * st[1];
+                    if v < 1e-3 * st[0] { well = false; }
+                    if v < 0.0 { v = 0.0; }
+                }
+                if let Some(mu) = m {
+                    st[2] = *mu as f64 * st[2] + g / (v.sqrt() + e);
+                    *w -= lr * st[2];
+                } else {
+                    *w -= lr * g / (v.sqrt() + e);
+                }
+            }
+        }
+        well
     }
 }
 
